@@ -440,6 +440,12 @@ impl Sender {
         self.hangup_recved.upgrade().map(|hr| hr.load(Ordering::Relaxed)).unwrap_or_default()
     }
 
+    /// Whether the remote endpoint has closed its receiver gracefully (`Some(true)`)
+    /// or has dropped it (`Some(false)`).
+    pub(crate) fn remote_closed(&self) -> Option<bool> {
+        self.credits.closed()
+    }
+
     /// Returns a future that will resolve when the remote endpoint closes its receiver.
     pub fn closed(&self) -> Closed {
         Closed::new(&self.hangup_notify)
